@@ -382,6 +382,17 @@ pub fn canon_stdin() {
                     Err(_) => bad = true,
                 }
                 i += 3;
+            } else if toks[i] == "ns" && i + 2 < toks.len() {
+                // `ns H(decimal text) U` (reference reader): the nearest double of the decimal text
+                match unh(toks[i + 1]).unwrap_or_default().parse::<f64>() {
+                    Ok(x) => {
+                        res.push("n".into());
+                        res.push(flt(x));
+                        res.push(toks[i + 2].to_string());
+                    }
+                    Err(_) => bad = true,
+                }
+                i += 3;
             } else if toks[i] == "Tl" && i + 1 < toks.len() {
                 // `Tl H(text)`: a timestamp token; chrono / chrono-tz (through the real reader) evaluate it
                 let text = unh(toks[i + 1]).unwrap_or_default();
